@@ -44,6 +44,13 @@ def corpus():
     out.append(dict(tgt=t, dev=d, edits=['corpus-shared-group-split-with-equal-leftover']))
     d2 = N.copy_conf(d); d2['policies']['Netspoc-v1'] = d2['policies']['Netspoc-v1'][:2]; N.finish(d2); d2['groups']['Netspoc-g5'] = ['10.1.1.10', '10.1.1.20', '10.1.1.40']
     out.append(dict(tgt=t, dev=d2, edits=['corpus-shared-group-split-with-unused-equal-leftover']))
+    # the manager's service holds the entry of the target's service and one entry more (services are compared by their definitions)
+    t = N.new_conf(); t['policies']['Netspoc-v1'] = [R('r1', '10.1.1.10', '10.1.1.11', N.SP + 'Netspoc-tcp_80')]; N.finish(t)
+    d = N.copy_conf(t)
+    d['services']['Netspoc-tcp_80'] = N.svc_def(('tcp', '80'))
+    d['services']['Netspoc-tcp_80']['service_entries'].append(dict(id='id2', resource_type='L4PortSetServiceEntry', l4_protocol='TCP',
+                                                                   destination_ports=['8080'], source_ports=[]))
+    out.append(dict(tgt=t, dev=d, edits=['corpus-service-with-one-entry-more']))
     return out
 
 
